@@ -60,7 +60,7 @@ fn choices_json(c: &[u8]) -> Value {
 
 fn block(acc: &mut Acc, base_seed: u64, lo: u64, hi: u64, det_n: u64, want_samples: usize) {
     simcore::isolate::trace_run(lo);
-    let plans: Arc<Vec<Plan>> = Arc::new((lo..hi).map(|i| plan(rng::mix(base_seed, rng::domain(PROP), i))).collect());
+    let plans: Arc<Vec<Plan>> = Arc::new((lo..hi).map(|i| plan(rng::mix(base_seed, simcore::stage_domain(PROP), i))).collect());
     let outs = exec::execute_block(&plans);
     for (k, out) in outs.into_iter().enumerate() {
         one_run(acc, base_seed, lo + k as u64, &plans[k], out, det_n, want_samples);
@@ -68,7 +68,7 @@ fn block(acc: &mut Acc, base_seed: u64, lo: u64, hi: u64, det_n: u64, want_sampl
 }
 
 fn one_run(acc: &mut Acc, base_seed: u64, i: u64, p: &Plan, out: Outcome, det_n: u64, want_samples: usize) {
-    let run_seed = rng::mix(base_seed, rng::domain(PROP), i);
+    let run_seed = rng::mix(base_seed, simcore::stage_domain(PROP), i);
     let eh = event_hash(&out);
     if i < det_n {
         let out2 = execute(&p.scenario, p.mode.clone(), p.sched_seed);
@@ -346,7 +346,7 @@ fn write_replay(path: &str, base_seed: u64, run_index: u64, sc: &Scenario, sched
         "engine": "sim_sched (shuttle 0.9.3 runtime + harness scheduler)",
         "base_seed": base_seed,
         "run_index": run_index,
-        "run_seed": rng::mix(base_seed, rng::domain(PROP), run_index),
+        "run_seed": rng::mix(base_seed, simcore::stage_domain(PROP), run_index),
         "scenario": sc.to_json(),
         "schedule": choices_json(schedule),
         "schedule_note": "task ids chosen at successive scheduling points: 0 = main task, 1.. = clients in spawn order",
@@ -429,14 +429,14 @@ fn main() {
     }
     let base_seed = args.num("--seed").unwrap_or_else(simcore::seed_from_env);
     let emit = |idx: u64, sig: &str| -> String {
-        let run_seed = rng::mix(base_seed, rng::domain(PROP), idx);
+        let run_seed = rng::mix(base_seed, simcore::stage_domain(PROP), idx);
         let p = plan(run_seed);
         // no execution here: record the scenario and the scheduling policy; the replay re-draws
         // the same decisions from (mode, sched_seed)
-        let path = format!("{}/replays/{PROP}-{}-{}.json", simcore::verif_dir(), base_seed, idx);
+        let path = simcore::replay_path(PROP, base_seed, idx);
         simcore::write_json_atomic(
             &path,
-            &json!({"property": PROP, "engine": "sim_sched (shuttle 0.9.3 runtime + harness scheduler)", "base_seed": base_seed, "run_index": idx,
+            &json!({"property": PROP, "profile": simcore::profile_name(), "engine": "sim_sched (shuttle 0.9.3 runtime + harness scheduler)", "base_seed": base_seed, "run_index": idx,
                     "run_seed": run_seed, "scenario": p.scenario.to_json(), "schedule": [], "schedule_from_seed": true,
                     "signature": sig, "event_hash": "",
                     "detail": "the process died inside a library call while executing this scenario (not minimised)"}),
@@ -451,7 +451,7 @@ fn main() {
     }
     if let Some(lo) = args.num("--only-block") {
         // debugging aid: execute one block of 256 runs exactly as the batch does
-        let plans: Arc<Vec<Plan>> = Arc::new((lo..lo + 256).map(|i| plan(rng::mix(base_seed, rng::domain(PROP), i))).collect());
+        let plans: Arc<Vec<Plan>> = Arc::new((lo..lo + 256).map(|i| plan(rng::mix(base_seed, simcore::stage_domain(PROP), i))).collect());
         let outs = exec::execute_block(&plans);
         for (k, out) in outs.iter().enumerate() {
             let v = judge(&plans[k].scenario, out);
@@ -463,7 +463,7 @@ fn main() {
     }
     if let Some(idx) = args.num("--only") {
         // debugging aid: execute one run index of the batch and print what happened
-        let run_seed = rng::mix(base_seed, rng::domain(PROP), idx);
+        let run_seed = rng::mix(base_seed, simcore::stage_domain(PROP), idx);
         let p = plan(run_seed);
         let out = execute(&p.scenario, p.mode.clone(), p.sched_seed);
         println!("scenario: {}", p.scenario.to_json());
@@ -478,15 +478,15 @@ fn main() {
     let tier = simcore::tier_from(&args);
     let workers = args.num("--workers").map(|w| w as usize).unwrap_or_else(simcore::par::workers_from_env);
     let runs = args.num("--runs").unwrap_or(match tier {
-        Tier::Quick => 1_000_000,
-        Tier::Thorough => 50_000_000,
+        Tier::Quick => 1_000_000 / if simcore::debug_stage() { 2 } else { 1 },
+        Tier::Thorough => 50_000_000 / if simcore::debug_stage() { 10 } else { 1 },
     });
     let det_n = match tier {
         Tier::Quick => 200.min(runs),
         Tier::Thorough => 2000.min(runs),
     };
     let digest_only = args.flag("--digest");
-    println!("sim_sched property={PROP} tier={} VERIF_SEED={base_seed} runs={runs} workers={workers}", tier.name());
+    println!("sim_sched property={PROP} tier={} VERIF_SEED={base_seed} runs={runs} workers={workers}{}", tier.name(), if simcore::debug_stage() { " stage=debug-profile" } else { "" });
     let t0 = std::time::Instant::now();
     // watchdog: the shuttle build models Mutex and AtomicUsize only; a blocking primitive outside
     // that model (a std RwLock, Condvar, ...) would park the one OS thread hosting the coroutines.
@@ -558,7 +558,7 @@ fn main() {
     }
     let mut reported = Vec::new();
     for (sig, idx, cnt, detail) in new_violations.iter().take(4) {
-        let run_seed = rng::mix(base_seed, rng::domain(PROP), *idx);
+        let run_seed = rng::mix(base_seed, simcore::stage_domain(PROP), *idx);
         let p = plan(run_seed);
         let out = execute(&p.scenario, p.mode.clone(), p.sched_seed);
         let (msc, msched, info) = minimise(&p.scenario, &out.trace.choices, sig, run_seed);
@@ -575,7 +575,7 @@ fn main() {
             (p.scenario.clone(), o.trace.choices.clone(), o, detail.clone(), json!({"note": "minimised trace did not reproduce; original kept"}))
         };
         let _ = fsched;
-        let path = format!("{}/replays/{PROP}-{}-{}.json", simcore::verif_dir(), base_seed, idx);
+        let path = simcore::replay_path(PROP, base_seed, *idx);
         write_replay(&path, base_seed, *idx, &fsc, &fout.trace.choices, sig, &fdetail, event_hash(&fout), info);
         // verify the replay file in a fresh process before reporting it
         let exe = std::env::current_exe().unwrap_or_else(|e| harness_error(&format!("current_exe: {e}")));
@@ -649,7 +649,7 @@ fn main() {
             "sampled, not exhaustive: a clean batch is evidence, not proof"
         ],
     });
-    let ev_path = format!("{}/evidence/{PROP}.json", simcore::verif_dir());
+    let ev_path = simcore::evidence_path(PROP);
     simcore::write_json_atomic(&ev_path, &ev);
     println!(
         "runs={} steps={} distinct={} nontrivial={} overlap_runs={} finisher_overlap={} violating_runs={} wall={:.1}s digest={:016x}",
